@@ -174,7 +174,7 @@ def histories(rng, tier):
     for _ in range(n):
         r = rng.random()
         out.append(hist_dense(rng) if r < 0.35 else hist_addressing(rng) if r < 0.85 else hist_implicit(rng))
-    return out
+    return [gen.file_variants(rng, h) for h in out]
 
 
 def nontrivial(h):
